@@ -88,7 +88,7 @@ func NewCache(s *server) elton.Handler {
 		key := getKey(c.Request)
 		httpCache := disp.GetHTTPCache(key)
 		verifPoint("disp.got")
-		cacheStatus, httpResp := httpCache.Get()
+		cacheStatus, httpResp, age := httpCache.GetWithAge()
 
 		cacheable := false
 		// 对于fetching类的请求，如果最终是不可缓存的，则设置hit for pass
@@ -108,7 +108,7 @@ func NewCache(s *server) elton.Handler {
 			setHTTPResp(c, httpResp)
 			verifPoint("cache.beforeAge")
 			// 设置缓存数据的age
-			setHTTPRespAge(c, httpCache.Age())
+			setHTTPRespAge(c, age)
 			return nil
 		}
 
